@@ -134,7 +134,8 @@ def hand_fold(texts_sorted, strict):
             warnings.simplefilter('always')
             try:
                 ro += mo
-            except exc.MosMergeError as e:
+            except exc.MosRoMgrException as e:
+                # a message that fails to merge: whatever class of the library's own hierarchy it raises
                 failures += 1
                 warns += impl.lib_warnings(w)
                 if strict:
@@ -359,6 +360,84 @@ def run_c10(tier, seed):
     return oc
 
 
+# ---- collections and completion (C07), readers re-used (C07, C11) -----------------------------------
+
+def collection_stages(docs, strict):
+    """A collection over `docs` observed before and after its merge, then a second collection built from
+    the SAME reader objects without the roDelete readers (its running order never receives a roDelete)."""
+    from . import impl
+    from mosromgr.moscollection import MosCollection, MosReader
+    has_record = lambda ro: ro.xml.find('mosromgrmeta') is not None
+    out = {}
+    with warnings.catch_warnings():
+        warnings.simplefilter('ignore')
+        try:
+            readers = sorted(MosReader.from_string(t) for t in docs)
+            mc = MosCollection(list(readers), allow_incomplete=True)
+        except Exception as e:  # noqa: BLE001
+            return {'invalid': impl.err_name(e)}
+        out['before'] = {'completed': bool(mc.completed), 'record': has_record(mc.ro)}
+        try:
+            mc.merge(strict=strict)
+            out['merge_err'] = None
+        except Exception as e:  # noqa: BLE001
+            out['merge_err'] = impl.err_name(e)
+        out['after'] = {'completed': bool(mc.completed), 'record': has_record(mc.ro), 'ro_completed': bool(mc.ro.completed)}
+        create_text = next(t for t in docs if TJ.find(TJ.parse(t), 'roCreate') is not None)
+        fresh = impl.load(create_text)
+        try:
+            mc2 = MosCollection([r for r in readers if r.mos_type.__name__ != 'RunningOrderEnd'], allow_incomplete=True)
+            out['second'] = {'completed': bool(mc2.completed), 'record': has_record(mc2.ro),
+                             'is_the_roCreate': str(mc2.ro) == str(fresh), 'fresh_record': has_record(fresh)}
+            try:
+                mc2.merge(strict=False)
+                out['second']['merge_err'] = None
+            except Exception as e:  # noqa: BLE001
+                out['second']['merge_err'] = impl.err_name(e)
+            out['second']['completed_after'] = bool(mc2.completed)
+        except Exception as e:  # noqa: BLE001
+            out['second'] = {'invalid': impl.err_name(e)}
+    return out
+
+
+def stage_problems(pid, st):
+    bad = []
+    if 'invalid' in st:
+        return bad
+    if pid == 'C07':
+        for k in ('before', 'after'):
+            if st[k]['completed'] != st[k]['record']:
+                bad.append(f"{k} the merge the collection reports completed={st[k]['completed']} but its running order "
+                           f"{'has' if st[k]['record'] else 'has no'} completion record")
+        sec = st['second']
+        if 'invalid' not in sec and not sec['fresh_record']:
+            if sec['completed'] or sec['record']:
+                bad.append('a second collection over the same readers, without the roDelete, starts out completed')
+            if sec['merge_err'] is not None or sec['completed_after']:
+                bad.append(f"a second collection over the same readers, without the roDelete: merge raised {sec['merge_err']}, completed={sec['completed_after']}")
+    if pid == 'C11':
+        sec = st['second']
+        if 'invalid' not in sec and not sec['is_the_roCreate']:
+            bad.append("after acceptance the collection's running order is not the roCreate (readers were used by an earlier collection)")
+    return bad
+
+
+def run_stage_checks(oc, pid, tier, seed):
+    n_hist = 40 if tier == 'quick' else 600
+    hists = hist_run.run_histories([seed * 2741 + 5 * k for k in range(n_hist)], max_steps=6 if tier == 'quick' else 12)
+    for h in hists:
+        for strict in (False, True):
+            st = collection_stages(h['docs'], strict)
+            oc.evaluations += 1
+            oc.in_domain += 1
+            oc.count('collection-stages')
+            bad = stage_problems(pid, st)
+            if bad:
+                oc.failing.append({'kind': 'collection-stages', 'docs': h['docs'], 'strict': strict, 'label': f'hist seed={h["seed"]} strict={strict}',
+                                   'spec': '; '.join(bad), 'impl': st})
+            oc.nontrivial.add(stable_hash(['stages', h['docs'], strict]))
+
+
 # ---- C11 ------------------------------------------------------------------------------------------
 
 def c11_lists(tier):
@@ -375,6 +454,9 @@ def c11_lists(tier):
                     roid_variants.append(('last-differs', ['RO1'] * (n - 1) + ['RO2']))
                     roid_variants.append(('first-differs', ['RO2'] + ['RO1'] * (n - 1)))
                     roid_variants.append(('creates-differ', ['RO2' if k == 'C' else 'RO1' for k in kinds]))
+                    roid_variants.append(('last-blank', ['RO1'] * (n - 1) + [None]))        # an empty <roID/> is an ID of its own
+                    roid_variants.append(('first-blank', [None] + ['RO1'] * (n - 1)))
+                    roid_variants.append(('all-blank', [None] * n))
                 for label, roids in roid_variants:
                   for idmode in ('distinct', 'all-same'):
                     if idmode == 'all-same' and n < 2:
@@ -486,6 +568,7 @@ def run_c11(tier, seed):
         oc.nontrivial.add(h)
         if len(oc.samples) < 4 and len(oc.nontrivial) % 37 == 1:
             oc.samples.append({'label': c['label'], 'default': d, 'optimized': o, 'spec_accepts': accept})
+    run_stage_checks(oc, 'C11', tier, seed)
     oc.exhaustive = True
     oc.extra['interpreters'] = ['default', 'python -O (fresh subprocess, sys.flags.optimize == 1 checked)']
     oc.rule = ('all multisets of 0..%d roCreates x 0..%d roDeletes x 0..2 others x {one roID, last differs, first differs} '
@@ -521,6 +604,11 @@ def replay(pid, fl):
             bad = (o['err'], o['reader_ids'], o['text']) != (base['err'], base['reader_ids'], base['text']) or \
                   (o['err'] is None and o['reader_ids'] != sorted(o['reader_ids']))
             print(json.dumps({'impl': _brief(o), 'sorted_order': _brief(base)}, indent=1, ensure_ascii=False)[:3000])
+    elif kind == 'collection-stages':
+        st = collection_stages(fl['docs'], fl['strict'])
+        probs = stage_problems(pid, st)
+        print(json.dumps({'stages': st, 'problems': probs}, indent=1)[:3000])
+        bad = bool(probs)
     elif kind == 'validate':
         m = model_collection([model_req(fl['docs'], fl['allow_incomplete'], True)])[0]
         d = validate_obs(fl['docs'], fl['allow_incomplete'])
